@@ -31,7 +31,8 @@ theorem exConst_lin (b : BoundsMap (Ext K)) : linearizeWith (exConst : Model (Ex
   · simp [LinP.assemble, Ctx.addRhs, Arith.add, Ext.add, lmConst, exConst, s0, dedupNames, sortStr, extractCoeffs, Ctx.fromRhs, Ctx.new]
 
 theorem exConst_compile (tol : Ext K) (n : Nat) : Compile.linearize (exConst : Model (Ext K)) tol n = .ok lmConst := by
-  refine (compile_ok_iff _ _ _ _).mpr ⟨(Analyzer.analyze [] [] tol n).enforceable [], ?_, ?_⟩
+  refine (compile_ok_iff _ _ _ _).mpr ⟨scratchOK_of_fragCheck _ _ (by simp [fragCheck, exConst, frag, fragList]),
+    (Analyzer.analyze [] [] tol n).enforceable [], ?_, ?_⟩
   · simp [pipelineAnalyzer, Compile.normalizedForBounds, exConst]
   · simp only [exConst, Analyzer.applyToDomain, List.map_nil]
     exact exConst_lin _
